@@ -247,6 +247,32 @@ def predicate(case, stats):
     except Exception as exc:  # noqa: BLE001
         fails.append({"sub": "strip", "kind": "schema-without-the-part-does-not-parse:" + type(exc).__name__,
                       "detail": str(exc)[:200]})
+    # 3. the SAME dict object, parsed once while it was fine, then given the unsupported keyword (at its root, or at
+    #    the root of its definitions entry) and parsed again: whatever the first parse left on the object must not
+    #    let the second one through
+    same = copy.deepcopy(schema)
+    try:
+        runner_fn(same)
+        first_ok = True
+    except Exception:  # noqa: BLE001 - judged in step 2
+        first_ok = False
+    target = same
+    if case["via_parse"] and isinstance(same.get("definitions"), dict) and isinstance(same["definitions"].get("d"), dict):
+        target = same["definitions"]["d"]
+    if first_ok and isinstance(target, dict):
+        target[case["keyword"]] = copy.deepcopy(case["value"])
+        try:
+            again = runner_fn(same)
+        except FeatureNotImplementedError:
+            classes.append("same-object:refused")
+        except RecursionError:
+            stats.inconclusive["recursion"] += 1
+        except Exception as exc:  # noqa: BLE001
+            fails.append({"sub": "same-object", "kind": "wrong-error-on-second-parse-of-the-same-object:" + type(exc).__name__,
+                          "keyword": case["keyword"]})
+        else:
+            fails.append({"sub": "same-object", "kind": "unsupported-keyword-accepted-on-second-parse-of-the-same-object",
+                          "keyword": case["keyword"], "result": repr(again)[:200]})
     stats.case(canon([schema, case["path"], case["keyword"]]), len(case["path"]) >= 1, classes,
                sample={"schema_with_keyword": bad, "path": case["path"], "keyword": case["keyword"]})
     return fails
